@@ -343,6 +343,27 @@ VH_AREA(fmt) {
                 bytes = slurp(f);
                 fclose(f);
                 size_t muts = 1 + rng.below(3);
+                Rng side = rng.sub(780);
+                if (fmt == 4 && side.chance(0.4)) {
+                    // dets: an index at or beyond the end of its own section (M / D / L) that may still lie inside the record, or one
+                    // so large that adding the section offset wraps around 2^64; the valid encoding is otherwise left alone
+                    size_t len[3] = {sp.m, sp.d, sp.l}, off[3] = {0, sp.m, sp.m + sp.d};
+                    int sec = (int)side.below(3);
+                    std::string tok = std::string(" ") + "MDL"[sec];
+                    switch (side.below(4)) {
+                        case 0: tok += std::to_string(len[sec]); break;
+                        case 1: tok += std::to_string(len[sec] + side.below(3)); break;
+                        case 2: tok += std::to_string(n - off[sec] > len[sec] ? len[sec] + side.below(n - off[sec] - len[sec]) : len[sec]); break;   // inside the record
+                        default: tok += off[sec] == 0 ? std::string("18446744073709551615")
+                                                      : std::to_string(UINT64_MAX - off[sec] + 1 + side.below(n ? n : 1)); break;
+                    }
+                    std::vector<size_t> nl;
+                    for (size_t i = 0; i < bytes.size(); i++) if (bytes[i] == '\n') nl.push_back(i);
+                    if (nl.empty()) bytes += "shot" + tok + "\n";
+                    else bytes.insert(nl[side.below(nl.size())], tok);
+                    st.hit("hostile.dets.section_boundary_index");
+                    muts = 0;
+                }
                 for (size_t i = 0; i < muts; i++) bytes = mutate(rng, bytes);
             } else {
                 size_t len = rng.below(40);
